@@ -54,6 +54,9 @@ def null_call(B, server, md, args, mode):
     try:
         if mode == 'positional':
             res = call(*[v for _, v in vals])
+        elif mode.startswith('mixed'):
+            k = int(mode[5:])
+            res = call(*[v for _, v in vals[:k]], **{n: v for n, v in vals[k:]})
         elif mode == 'keyword-omit':
             res = call(**{k: v for k, v in vals if v is not None})       # an argument left out is a null argument
         else:
@@ -224,11 +227,30 @@ def one_case(R, ir, Bn, null, wires, md, args, rets, outcome, is_ignored, repro,
     if n_pos[0] != n_kw[0]:
         R.violation('positional call ended as %s, keyword call as %s' % (n_pos[0], n_kw[:2]), repro, mech='positional_vs_keyword_outcome')
         return
-    if md['style'] != 'bare' and a_pos is not None and a_kw is not None:
+    if a_pos is not None and a_kw is not None:
         for (an, at), x, y in zip(md['args'], a_pos, a_kw):
             d = []
             if not gen.veq(ir, at, x, y, an, d):
-                R.violation('argument %s differs between positional and keyword NullServer call: %s' % (an, d[:2]), repro, mech='positional_vs_keyword_args')
+                R.violation('argument %s differs between positional and keyword NullServer call: %s' % (an, d[:2]), repro,
+                            mech='positional_vs_keyword_args' + (':bare' if md['style'] == 'bare' else ''))
+    # the first k arguments by position, the rest by keyword
+    nvals = len(gen.all_fields(ir, md['args'][0][1]['ref'])) if md['style'] == 'bare' else len(md['args'])
+    if nvals >= 2 and outcome in ('ok', 'fault'):
+        k = rng.randint(1, nvals - 1)
+        n_mx = null_call(Bn, null, md, args, 'mixed%d' % k)
+        a_mx = received_args(Bn, md)
+        R.count('nullserver_calls')
+        R.count('mixed_calls')
+        if n_mx[0] != n_pos[0]:
+            R.violation('positional call ended as %s, the call passing %d arguments by position and the rest by keyword as %s' % (
+                n_pos[0], k, n_mx[:2]), repro, mech='positional_vs_mixed_outcome')
+            return
+        if a_pos is not None and a_mx is not None:
+            for (an, at), x, y in zip(md['args'], a_pos, a_mx):
+                d = []
+                if not gen.veq(ir, at, x, y, an, d):
+                    R.violation('argument %s differs between the positional call and the one passing %d arguments by position and the rest by '
+                                'keyword: %s' % (an, k, d[:2]), repro, mech='positional_vs_mixed_args' + (':bare' if md['style'] == 'bare' else ''))
     if n_pos[0] == 'ok':
         res = n_pos[1]
         if is_ignored:
